@@ -7,7 +7,7 @@ SPEC = {
     "full_theorems": ["C20_roundtrip", "C20_size", "C20_roundtrip_and_size", "C20_decoded_size",
                       "C20_dbKeyValue_roundtrip"],
     "partial_theorems": [],
-    "counterexamples": [],
+    "counterexamples": ["C20_path_lossy_counterexample"],
     "driver": "codecmodel",
     "harness_bin": "harness_codec",
     "level": "proof",
@@ -24,7 +24,8 @@ SPEC = {
     "level_note": ("Trusted: Lean kernel; the hand-written model being faithful (validated by the ser stream, incl. the port of "
                    "core::net's address parser/printer); std assumptions: to_le_bytes/from_le_bytes bit-exact, String::from_utf8 = the "
                    "UTF-8 DFA of Model/Basic.lean, parse(to_string(addr)) = addr for IpAddr/SocketAddr with flowinfo 0, SystemTime = Unix "
-                   "timespec. Recursive query types (QueryCondition) are outside the schema universe (no recursion binder). Two lossy "
+                   "timespec. Recursive query types (QueryCondition and everything containing it, incl. QueryType) are covered through "
+                   "depth-unrolled schemas: each value is checked against the schema unrolled to its own nesting depth. Two lossy "
                    "encodings are genuine violations of the statement and listed as known findings: non-UTF-8 PathBuf, SocketAddrV6 flowinfo."),
     "technique": "Lean 4 proof by mutual structural recursion over a universe of type descriptors + differential correspondence on real derived types",
     "design_ref": "DESIGN.md §6 C20",
